@@ -58,6 +58,12 @@ const (
 // witness probes at the top of TestC15; forced off by C15_NO_EXCLUDE=1).
 var c15Exclude = map[string]bool{}
 
+// c15GappedViews: the rapid generator also draws trees in which a proposal's view exceeds its
+// parent's by more than one (the tree and the safety rules accept them: smr.handleReceivedProposal
+// takes the view from the proposal message and the parent from its justify QC). Blocks confirmed
+// through ProcessConfirmBlock always have view = parent view + 1; c15FindStale only shows with a gap.
+var c15GappedViews = true
+
 // ---------------------------------------------------------------------------------------------
 // operations as data
 // ---------------------------------------------------------------------------------------------
@@ -781,7 +787,7 @@ func c15GenTree(rt *rapid.T) c15Op {
 	if n >= 3 && rapid.IntRange(0, 9).Draw(rt, "init") < 2 {
 		init = "restart"
 	}
-	gaps := rapid.IntRange(0, 3).Draw(rt, "gaps") == 0
+	gaps := rapid.IntRange(0, 3).Draw(rt, "gaps") == 0 && c15GappedViews
 	chainy := rapid.IntRange(3, 9).Draw(rt, "chainy")
 	base := int64(rapid.IntRange(0, 4).Draw(rt, "base"))
 	if init == "restart" {
@@ -987,7 +993,7 @@ func TestC15(t *testing.T) {
 	// --- exhaustive box: every tree of <= maxN proposals, every arrival order ---
 	maxN, sampleN := 6, 0
 	if hx.Tier() == "quick" {
-		maxN, sampleN = 5, 6 // quick: n = 6 only for every 12th tree
+		maxN, sampleN = 5, 6 // quick: n = 6 only for every 4th tree
 	}
 	violated := false
 	report := func(ops []c15Op, err error) {
@@ -997,6 +1003,10 @@ func TestC15(t *testing.T) {
 		violated = true
 		p := c.Violate("pending-tree", err.Error(), ops)
 		t.Errorf("C15 enumeration: %v (replay %s)", err, p)
+	}
+	boxNote := ""
+	if len(excl) > 0 {
+		boxNote = "; an order that contains the trigger shape of an excluded finding is executed up to that trigger only"
 	}
 	ntSeen, hashEvery := 0, 8
 	if hx.Tier() != "quick" {
@@ -1091,7 +1101,7 @@ func TestC15(t *testing.T) {
 		enumN(n, 1)
 	}
 	if sampleN > 0 {
-		enumN(sampleN, 12)
+		enumN(sampleN, 4)
 	}
 	if hx.Tier() != "quick" {
 		// thorough: trees of 7 proposals (two commits in a row become possible); all of them when the
@@ -1099,13 +1109,13 @@ func TestC15(t *testing.T) {
 		stride7 := maxInt(1, 16/hx.Shards())
 		enumN(7, stride7)
 		if !violated && stride7 == 1 {
-			c.SetExhaustive("every proposal tree of 7 nodes (views = depth) x every arrival order, as confirmed blocks and as proposals with commit + vote")
+			c.SetExhaustive("every proposal tree of 7 nodes (views = depth) x every arrival order, as confirmed blocks and as proposals with commit + vote" + boxNote)
 		}
 	}
 	if !violated && hx.Tier() != "quick" {
-		c.SetExhaustive("every proposal tree of <= 6 nodes (views = depth) x every arrival order, as confirmed blocks and as proposals with commit + vote; <= 5 nodes additionally with one duplicate at every position")
+		c.SetExhaustive("every proposal tree of <= 6 nodes (views = depth) x every arrival order, as confirmed blocks and as proposals with commit + vote; <= 5 nodes additionally with one duplicate at every position" + boxNote)
 	} else if !violated {
-		c.SetExhaustive("every proposal tree of <= 5 nodes (views = depth) x every arrival order, as confirmed blocks, as proposals with commit + vote, and with one duplicate at every position")
+		c.SetExhaustive("every proposal tree of <= 5 nodes (views = depth) x every arrival order, as confirmed blocks, as proposals with commit + vote, and with one duplicate at every position" + boxNote)
 	}
 
 	if violated {
@@ -1113,7 +1123,7 @@ func TestC15(t *testing.T) {
 	}
 
 	// --- rapid: larger trees, gapped views, restarted trees, interleaved marker operations ---
-	c.Check(t, "pending-tree", hx.N(20000, 200000), func(cs *hx.Case) {
+	c.Check(t, "pending-tree", hx.N(30000, 200000), func(cs *hx.Case) {
 		rt := cs.RT()
 		tree := c15GenTree(rt)
 		m, err := c15NewMachine(tree)
